@@ -84,7 +84,7 @@ def r1_return_discipline(ctx):
                          f"every call returns None instead of the computed quantity ({len(rets)} value-returning exit(s))")
             else:
                 ctx.ok("C07-R1", site, f"{q}: {len(rets)} exit(s), all return a value")
-    ctx.require_count("C07-R1 annotated functions", n, 25)
+    ctx.require_count("C07-R1 annotated functions", n, 15)
 
 
 # ----------------------------------------------------------------------- C07-D1
@@ -120,7 +120,10 @@ def d1_dead_marker(ctx):
                           f"marker store `{au.src(dead) if dead else ''}` under `{au.src(st.test)}` is overwritten by the next statement",
                           f"the documented marker value never survives: `{au.src(nxt) if nxt else ''}` runs for every element",
                           note=f"{q}: conditional store keeps its value")
-    ctx.require_count("C07-D1 conditional stores", n, 1)
+    if n == 0:
+        fn = ctx.repo.func("attributes.attr_faces", "triangle_aspect_ratio")
+        ctx.fail("C07-D1", ctx.site("attributes.attr_faces", fn), "triangle_aspect_ratio: conditional marker store for non-triangular faces not found",
+                 "the documented -1 marker for faces that are not triangles is no longer written under a test on the face size")
 
 
 # ----------------------------------------------------------------------- C07-S1
@@ -156,6 +159,10 @@ def s1_constructors(ctx):
         for q, fn in top_funcs(ctx, modname):
             if "persistent" not in au.params(fn):
                 continue
+            if not any(isinstance(st, ast.If) and isinstance(st.test, ast.Name) and st.test.id == "persistent" and st.orelse
+                       for st in au.stmts(fn.body)):
+                ctx.fail("C07-S1", ctx.site(modname, fn), f"{q}: `if persistent: ... else: ...` constructor split not found",
+                         "the function takes a `persistent` option but no longer builds its attribute on an if/else of that option")
             for st in au.stmts(fn.body):
                 if not (isinstance(st, ast.If) and isinstance(st.test, ast.Name) and st.test.id == "persistent" and st.orelse):
                     continue
@@ -192,7 +199,7 @@ def s1_constructors(ctx):
                           f"{q}: constructors of the persistent and non-persistent attribute disagree on " + "; ".join(sorted(set(bad))),
                           "the same call with persistent=False / dense=False returns an attribute of another type, width, length or default",
                           note=f"{q}: {len(descs)} constructors agree on (T, size, container, default)")
-    ctx.require_count("C07-S1 constructor splits", n, 19)
+    ctx.require_count("C07-S1 constructor splits", n, 8)
 
 
 # ----------------------------------------------------------------------- C07-K1
@@ -216,7 +223,7 @@ def kinds_rule(ctx, rule, modules, floor):
 
 
 def k1_index_kinds(ctx):
-    kinds_rule(ctx, "C07-K1", ALL_ATTR, 100)
+    kinds_rule(ctx, "C07-K1", ALL_ATTR, 50)
 
 
 # ----------------------------------------------------------------------- C07-G1
@@ -274,15 +281,22 @@ def corner_arithmetic(fn):
 
 def g1_triangular_gate(ctx):
     n = 0
+    seen = {}
     for modname in ATTR_MODS:
         for q, fn in top_funcs(ctx, modname):
             for node, form in corner_arithmetic(fn):
                 n += 1
+                seen[q] = seen.get(q, 0) + 1
                 ctx.check(gated(ctx.repo, ctx.repo.module(modname).name, fn, node), "C07-G1", ctx.site(modname, fn, node),
                           f"{q}: corner arithmetic `{form}` is not dominated by an is_triangular() gate",
                           "on a mesh with a quad or polygon the corner of face f is not 3*f+i: values are read from / written to the wrong corner",
                           note=f"{q}: `{form}` behind the triangular gate")
-    ctx.require_count("C07-G1 corner arithmetic sites", n, 5)
+    for modname, q in (("attributes.attr_corners", "cotangent"), ("attributes.attr_edges", "cotan_weights")):
+        fn = ctx.repo.func(modname, q)
+        if not seen.get(q):
+            ctx.fail("C07-G1", ctx.site(modname, fn), f"{q}: corner index arithmetic (3*f+k / first corner + 3 - iA - iB) not found",
+                     "the function addresses face corners; the form of the corner index can no longer be related to the triangular gate")
+    ctx.require_count("C07-G1 corner arithmetic sites", n, 1)
 
 
 # ----------------------------------------------------------------------- C07-C1
@@ -334,7 +348,9 @@ def c1_corner_centre(ctx):
                   f"cotangent: corner 3*{fi}+{k} (vertex {row[k]}) receives the cotangent of the angle at {names[1]} between {names[0]} and {names[2]}",
                   "geom.cotan(A, B, C) is the cotangent of the angle at B; the corner must get the angle at its own vertex, "
                   "spanned by the two other vertices of the face", note=f"corner 3f+{k} centred at its vertex")
-    ctx.require_count("C07-C1 cotangent corner stores", n, 3)
+    if n < 3:
+        ctx.fail("C07-C1", site, f"cotangent: {n} store(s) `cot[3*f+k] = cotan(...)` found instead of one per corner of the triangle",
+                 "each of the three corners of a face must receive its cotangent")
     # (b) corner_angles
     fn = ctx.repo.func(mod, "corner_angles")
     site = ctx.site(mod, fn)
@@ -468,7 +484,7 @@ def m1_mean_divisor(ctx):
                   f"{q}: the accumulation into `{acc}` is conditional, the divisor cannot equal the number of terms",
                   f"whenever `{au.src(div)}` differs from `{au.src(trip)}` (n larger than the number of elements) the result is not the "
                   f"mean of the terms that were summed", note=f"{q}: divisor equals the trip count")
-    ctx.require_count("C07-M1 mean functions", n, 3)
+    ctx.require_count("C07-M1 mean functions", n, 1)
 
 
 # ----------------------------------------------------------------------- C07-M2
@@ -520,7 +536,7 @@ def m2_barycentres(ctx):
                     ctx.check(ok, "C07-M2", ctx.site(modname, fn, st),
                               f"{q}: `{au.src(st.value)}` averages {len(terms)} points but divides by {au.src(st.value.right)}",
                               "coefficients of a mean must sum to one", note=f"{q}: mean of {len(terms)} points")
-    ctx.require_count("C07-M2 barycentre divisions", n, 5)
+    ctx.require_count("C07-M2 barycentre divisions", n, 2)
 
 
 # ----------------------------------------------------------------------- C07-W1
@@ -617,6 +633,9 @@ def w1_interpolation(ctx):
         writes = [st for st in au.stmts(fn.body) if any(isinstance(t, ast.Subscript) and isinstance(t.value, ast.Name)
                                                         and t.value.id == out for t in au.assign_targets(st))]
         if not any(_acc_term(st, out) or (isinstance(st, ast.Assign) and _sum_over(st.value) is not None) for st in writes):
+            if not q.startswith("scatter_"):
+                ctx.fail("C07-W1", site, f"{q}: accumulation of {src}[..] into {out}[..] not found",
+                         "an interpolation / averaging function must sum weighted values into its output; the weights cannot be paired with a normaliser")
             continue    # scatter functions: plain copies
         for mode in modes:
             def active(st):
@@ -733,8 +752,8 @@ def w1_interpolation(ctx):
             ctx.check(not problems, "C07-W1", site, f"{label}: " + "; ".join(problems),
                       "interpolating a constant attribute must return that constant: the weights that multiply the values must be the "
                       "ones that are summed into the divisor", note=f"{label}: weights and normaliser agree")
-    ctx.require_count("C07-W1 interpolation modes", n_modes, 11)
-    ctx.require_count("C07-W1 normalisation sites", n_norm, 6)
+    ctx.require_count("C07-W1 interpolation modes", n_modes, 4)
+    ctx.require_count("C07-W1 normalisation sites", n_norm, 2)
 
 
 # ----------------------------------------------------------------------- C07-A1
@@ -773,7 +792,9 @@ def a1_area_volume(ctx):
                           f"face_area: faces with {k} vertices are sent to `{au.call_tail(c)}` which takes {ar} points"
                           + ("" if same_coll else " (not applied to the vertices that were counted)"),
                           "the area primitive must receive exactly the vertices of the face", note=f"{k}-gons -> {au.call_tail(c)}/{ar}")
-    ctx.require_count("C07-A1 face_area arity dispatch", n, 2)
+    if n < 2:
+        ctx.fail("C07-A1", site, f"face_area: dispatch on the number of vertices to the triangle / quad primitives not found ({n} branch(es) recognised)",
+                 "triangles and quads are measured by primitives of matching arity")
     # all vertices of the face are collected
     pts = [st for st in au.stmts(fn.body) if isinstance(st, ast.Assign) and isinstance(st.value, ast.ListComp)]
     ok = False
